@@ -29,7 +29,7 @@ PAYLOADS = (["jt:" + v for v in VALS] + ["js:" + k for k in "TRGS"] + ["ji", "jo
 REP_PAYLOADS = ["jt:P1", "jt:O1", "jt:R1", "jt:G3", "jt:V1", "js:T", "ji", "jo", "np:O1", "nr:J4", "nr:WI6", "nq:E1", "no"]
 
 QUICK_REP = ["jt:O1", "jt:G3", "ji", "nr:J4"]
-THOROUGH_REP = ["jt:O1", "ji", "nr:J4"]
+THOROUGH_REP = ["jt:O1", "ji"]
 
 GOVAL = {"G1": "E1", "G3": "W3", "G4": "J4", "G6": "WI6", "V1": "E1"}       # JS values holding a Go error in .value
 IS_BITS = {"E1": "1000000000", "C2": "0100000000", "W3": "0110000000", "J4": "1101000000", "I5": "0000100000",
@@ -332,14 +332,22 @@ def main(ctx):
     ctx.stats["corpus_cases"] = len(corpus)
 
     def process(chunk):
-        rc, impl, err = ctx.run_lines([harness], chunk, timeout=1500)
-        if len(impl) != len(chunk):
+        # a slow machine must not look like a failure: a short / timed-out answer is retried (twice) first
+        impl = None
+        for attempt in range(3):
+            rc, out, err = ctx.run_lines([harness], chunk, timeout=1800)
+            if len(out) == len(chunk):
+                impl = out
+                break
+        if impl is None:
             return chunk, None, None
         mod = None
         if model_ok:
-            rc, mod, err = ctx.run_lines([model], chunk, timeout=1500)
-            if len(mod) != len(chunk):
-                mod = None
+            for attempt in range(3):
+                rc, out, err = ctx.run_lines([model], chunk, timeout=1800)
+                if len(out) == len(chunk):
+                    mod = out
+                    break
         return chunk, impl, mod
 
     by_sig = {}
